@@ -491,6 +491,7 @@ def check_exhaustion_tolerance(ctx, F):
             if e['kind'] != 'call':
                 continue
             for a in e['args']:
+                a = rules.inline_pure(F, a)      # the point may be computed by a private pure helper
                 for x in sym.subterms(a):
                     if isinstance(x, tuple) and x and x[0] == 'bin' and x[1] == 'Shr' and isinstance(x[2], tuple) and x[2][0] == 'bin' and x[2][1].split('.')[0] == 'Add':
                         for l, add in ((x[2][2], x[2][3]), (x[2][3], x[2][2])):
